@@ -1282,10 +1282,33 @@ def row_permutation(scn):
     b = S.make_mab(other["cfg"])
     ra = T.apply_ops(a, [o for o in scn["ops"] if o["op"] != "pred"])
     rb = T.apply_ops(b, [o for o in other["ops"] if o["op"] != "pred"])
-    d = T.first_diff(ra, rb, 1e-9)
+    d = T.first_diff(ra, rb, scn.get("tol", 1e-9))
     if d:
         return "step %d: original order %r, permuted rows %r" % (d[0], d[1], d[2])
     return None
+
+
+def gen_c20_large(seed, index):
+    """one training call with more than 2^10 / 2^11 rows for one arm (block-wise accumulation must not make the
+    result depend on which rows share a block), deterministic policies, with and without per-arm standardisation"""
+    rng = random.Random("%s/C20-large/%s" % (seed, index))
+    lp = _det_lp(rng, linear_ok=True)
+    if index % 2 == 0:
+        lp = {"k": rng.choice(["linucb", "lingreedy"]), "alpha": 1.0, "eps": 0.0, "lam": rng.choice([1.0, 2.0]), "scale": True}
+    if lp["k"] in G.LIN_KINDS and "scale" not in lp:
+        lp["scale"] = rng.random() < 0.5
+    arms = [1, 2, 3][:rng.choice([2, 3])]
+    n = rng.choice([1100, 1100, 2100, 1030])
+    d = 2
+    dec = [arms[0] if rng.random() < 0.95 else rng.choice(arms[1:]) for _ in range(n)]
+    rew = [float(rng.choice([0, 1, 2, 3])) for _ in range(n)]
+    # a trend along the row order, so that the statistics of a leading block differ from those of the whole batch
+    ctx = [[float(rng.randint(0, 4)) + 3.0 * i / n, float(rng.randint(0, 4))] for i in range(n)]
+    contextual = lp["k"] in G.LIN_KINDS
+    ops = [{"op": "fit", "d": dec, "r": rew, "c": ctx if contextual else None},
+           {"op": "pexp", "c": [[1.0, 2.0], [4.0, 0.0], [2.5, 3.0]] if contextual else None}]
+    return {"cfg": {"lp": lp, "np": None, "arms": arms, "seed": rng.randint(0, 10 ** 6), "binz": None, "n_jobs": 1},
+            "ops": ops, "perm_seed": rng.randint(0, 10 ** 6), "tol": 1e-7}
 
 
 @twin("reward_shift_scale")
